@@ -1785,14 +1785,15 @@ def gen_measure(rng):
         single = rng.random() < 0.4
         spec = one_valid() if single else [one_valid() for _ in range(rng.randint(1, 5))]
     elif mode < 0.7 and n >= 2:
-        # negative (wrap-around) indices: documented Python indexing, not demanded by the oracle -> correspondence only
+        # negative (wrap-around) indices, which the function accepts as Python indexing does: index -k addresses atom n-k, and the
+        # index-based form must agree with the row-wise functions on THOSE atoms
         single = False
         spec = []
         for _ in range(rng.randint(1, 3)):
             m = one_valid()
             m = [i - n if rng.random() < 0.5 else i for i in m]
             spec.append(m)
-        valid = False
+        valid = True
     else:
         valid = False
         single = rng.random() < 0.3
